@@ -236,11 +236,23 @@ def gen_c10(rng: random.Random, sid: str, thorough: bool = False) -> dict:
     ids = list(range(1, n1 + 1)) + ([n1 + 1, n1 + 2] if len(types) > 1 else [])
     nrec = rng.choice([1, 2, 2, 3, 4, 6])
     horizon = 0
+    # cluster mode: the 75 % points of all records fall within +-delay of one instant (rate limit, batching, and a timer
+    # armed for a later record being re-armed for an earlier one)
+    cluster = rng.random() < 0.3
+    target = start_t + rng.randint(3400000, 5000000)
+    if cluster:
+        nrec = rng.choice([2, 3, 3, 4, 6])
+        ids_left = list(ids)
+        rng.shuffle(ids_left)
     for _ in range(nrec):
         i = rng.choice(ids)
         ttl = rng.choice(TTLS) if rng.random() < 0.85 else rng.randint(1125, 12000)
         r = rng.random()
-        if r < 0.3:
+        if cluster:
+            i = ids_left.pop() if ids_left else i
+            ttl = max(ttl, 1125)
+            learn = max(start_t + 20, target + rng.randint(-delay, delay) - 750 * ttl)
+        elif r < 0.3:
             learn = start_t + rng.choice([20, 60, 200, 1500, 6000, 15000, 20000, 30000])
         elif r < 0.6:
             learn = start_t + rng.randint(0, 100000)
